@@ -33,6 +33,7 @@ class Sink:
     source: Tuple[str, str]       # ('attr', 'model.name') | ('param', 'text') | ('local', 'x') | ('call', ...) | ('other', src)
     guards: List[Tuple[str, bool]] = field(default_factory=list)
     template: str = ''
+    arg_index: int = 0            # position of the value among the arguments of the OUTERMOST wrapper call
 
     @property
     def where(self) -> str:
@@ -195,9 +196,66 @@ def sinks_of(fi: FuncInfo) -> List[Sink]:
                 continue
             left = pieces[i - 1].value if i > 0 and isinstance(pieces[i - 1], ast.Constant) and isinstance(pieces[i - 1].value, str) else ''
             right = pieces[i + 1].value if i + 1 < len(pieces) and isinstance(pieces[i + 1], ast.Constant) and isinstance(pieces[i + 1].value, str) else ''
-            core, wr = strip_wrappers(p)
-            out.append(Sink(fi, p, core, left, right, state, wr, provenance(core, fn), enclosing_tests(fn, p), tsrc))
+            for argi, pe in multi_args(p):
+                core, wr = strip_wrappers(pe)
+                core, wr = resolve_local_chain(fn, core, wr, getattr(p, 'lineno', 0))
+                out.append(Sink(fi, p, core, left, right, state, wr, provenance(core, fn), enclosing_tests(fn, p), tsrc, argi))
+    # bare sinks: a data value handed on without any template around it
+    in_template: Set[int] = set()
+    for t in templates_in(fn):
+        for x in ast.walk(t):
+            in_template.add(id(x))
+    for n in walk_no_nested(fn):
+        cand = None
+        if isinstance(n, ast.Call) and isinstance(n.func, ast.Attribute) and n.func.attr == 'append' and len(n.args) == 1:
+            cand = n.args[0]
+        elif isinstance(n, ast.AugAssign) and isinstance(n.op, ast.Add):
+            cand = n.value
+        elif isinstance(n, ast.Return) and isinstance(n.value, ast.Call):
+            cand = n.value          # pass-through helper: return other_helper(param)
+        if cand is None or id(cand) in in_template or isinstance(cand, (ast.Constant, ast.JoinedStr, ast.BinOp)):
+            continue
+        for argi, pe in multi_args(cand):
+            core, wr = strip_wrappers(pe)
+            if isinstance(core, (ast.Attribute, ast.Name, ast.Subscript)):
+                src = provenance(core, fn)
+                if src[0] in ('attr', 'loop', 'param'):
+                    out.append(Sink(fi, cand, core, '', '', '', wr, src, enclosing_tests(fn, cand), norm(n)[:80], argi))
     return out
+
+
+def multi_args(p: ast.AST) -> List[Tuple[int, ast.AST]]:
+    """A hole that is a call of a plain function with several positional data arguments is one sink per argument:
+    [(argument position, pseudo-expression f(arg))]; any other hole is a single sink."""
+    e = p.value if isinstance(p, ast.FormattedValue) else p
+    if isinstance(e, ast.Call) and isinstance(e.func, ast.Name) and len(e.args) >= 2 and not e.keywords \
+            and all(isinstance(a, (ast.Name, ast.Attribute, ast.Subscript)) for a in e.args):
+        out = []
+        for i, a in enumerate(e.args):
+            c = ast.Call(func=e.func, args=[a], keywords=[])
+            ast.copy_location(c, e)
+            out.append((i, c))
+        return out
+    return [(0, p)]
+
+
+def resolve_local_chain(fn: ast.AST, core: ast.AST, wr: List[str], line: int, depth: int = 0) -> Tuple[ast.AST, List[str]]:
+    """x = f(model.a); x = g(x); use(x)  ->  core model.a, wrappers [f, g] (+ those already around the use)."""
+    if depth > 6 or not isinstance(core, ast.Name):
+        return core, wr
+    args = fn.args
+    if core.id in [a.arg for a in list(args.args) + list(args.kwonlyargs)]:
+        return core, wr
+    assigns = sorted([n for n in walk_no_nested(fn) if isinstance(n, ast.Assign) and len(n.targets) == 1 and norm(n.targets[0]) == core.id
+                      and n.lineno < line], key=lambda n: n.lineno)
+    if not assigns:
+        return core, wr
+    a = assigns[-1]
+    c2, w2 = strip_wrappers(a.value)
+    if isinstance(c2, (ast.JoinedStr, ast.BinOp, ast.Constant)):
+        return core, wr
+    c3, w3 = resolve_local_chain(fn, c2, w2, a.lineno, depth + 1)
+    return c3, w3 + wr
 
 
 # ----------------------------------------------------------------------------------------------
@@ -218,10 +276,18 @@ def sanitiser_of(idx: PyIndex, fi: FuncInfo) -> Optional[Sanitiser]:
     notes: List[str] = []
     pats: Dict[str, str] = {}
     found = False
+    alt_pats: Dict[str, List[str]] = {}
     for n in walk_no_nested(fi.node):
         if isinstance(n, ast.Assign) and len(n.targets) == 1 and isinstance(n.targets[0], ast.Name) and isinstance(n.value, ast.Call) \
-                and norm(n.value.func) in ('re.compile', 'compile') and n.value.args and isinstance(n.value.args[0], ast.Constant):
-            pats[n.targets[0].id] = n.value.args[0].value
+                and norm(n.value.func) in ('re.compile', 'compile') and n.value.args:
+            a0 = n.value.args[0]
+            if isinstance(a0, ast.Constant):
+                pats[n.targets[0].id] = a0.value
+            elif isinstance(a0, ast.IfExp) and isinstance(a0.body, ast.Constant) and isinstance(a0.orelse, ast.Constant):
+                # the pattern depends on a mode flag: only what every mode rewrites is guaranteed
+                pats[n.targets[0].id] = a0.body.value
+                alt_pats[n.targets[0].id] = [a0.body.value, a0.orelse.value]
+                notes_mode = f'the pattern depends on `{norm(a0.test)}`'
     for n in walk_no_nested(fi.node):
         if isinstance(n, ast.Call) and isinstance(n.func, ast.Attribute) and n.func.attr == 'sub':
             pat = None
@@ -233,11 +299,23 @@ def sanitiser_of(idx: PyIndex, fi: FuncInfo) -> Optional[Sanitiser]:
                 notes.append(f'unreadable substitution `{norm(n)[:50]}`')
                 continue
             found = True
-            for lit in regex_literal_alternatives(pat):
-                if lit is None:
-                    notes.append(f'pattern {pat!r} has a non-literal alternative')
-                    continue
-                out = apply_repl(repl, lit)
+            variants = [pat]
+            if isinstance(n.func.value, ast.Name) and n.func.value.id in alt_pats:
+                variants = alt_pats[n.func.value.id]
+            per_variant: List[Dict[str, str]] = []
+            for pv in variants:
+                d: Dict[str, str] = {}
+                for lit in regex_literal_alternatives(pv):
+                    if lit is None:
+                        notes.append(f'pattern {pv!r} has a non-literal alternative')
+                        continue
+                    d[lit] = apply_repl(repl, lit)
+                per_variant.append(d)
+            common = set(per_variant[0])
+            for d in per_variant[1:]:
+                common &= set(d)
+            for lit in common:
+                out = per_variant[0][lit]
                 if out == '':
                     removes.add(lit)
                 else:
@@ -355,23 +433,27 @@ class TemplateIndex:
 
     def expand(self, s: Sink, depth: int = 0) -> List[Tuple[Sink, List[str]]]:
         """Final contexts of a sink: if its wrappers include package helpers that build strings around their
-        parameter, descend into them.  Returns [(innermost sink, wrapper names seen on the way)]."""
-        res: List[Tuple[Sink, List[str]]] = []
-        # the outermost wrapper that is a package function with its own templates decides the context
+        parameter, descend into them.  Returns [(innermost sink, wrapper names seen on the way)]; the guards met on
+        the way are accumulated on a copy of the innermost sink."""
+        return [(f, w) for f, w, _ in self.expand_g(s, depth)]
+
+    def expand_g(self, s: Sink, depth: int = 0) -> List[Tuple[Sink, List[str], List[Tuple[str, bool]]]]:
+        res: List[Tuple[Sink, List[str], List[Tuple[str, bool]]]] = []
         for k in range(len(s.wrappers) - 1, -1, -1):
             w = s.wrappers[k]
             if w.startswith('.'):
                 continue
             callee = self.resolve_func(s.fn, w)
-            if callee is None or callee.id not in self.sinks or depth > 3:
+            if callee is None or callee.id not in self.sinks or depth > 4:
                 continue
             params = [a.arg for a in callee.node.args.args]
             if not params:
                 continue
-            inner = self.param_contexts(callee, params[0], depth + 1)
+            pi = s.arg_index if k == len(s.wrappers) - 1 and s.arg_index < len(params) else 0
+            inner = self.param_contexts(callee, params[pi], depth + 1)
             if inner:
                 for si in inner:
-                    for fin, ws in self.expand(si, depth + 1):
-                        res.append((fin, s.wrappers[:k] + ws))
+                    for fin, ws, gs in self.expand_g(si, depth + 1):
+                        res.append((fin, s.wrappers[:k] + ws, list(s.guards) + gs))
                 return res
-        return [(s, list(s.wrappers))]
+        return [(s, list(s.wrappers), list(s.guards))]
